@@ -50,7 +50,11 @@ static bool is_filler(const char *p)
 	return false;
 }
 
-static const char *const VALUES[] = {"1", "\"v\"", "[]", "{\"a\":null}", "2.5", "true"};
+static const char *const VALUES_FAR[] = {"1", "\"v\"", "[]", "{\"a\":null}", "2.5", "true"};
+/* nearvals=1: consecutive values differ only in the letter case of a member name, in nesting, or in the kind of an
+ * empty container - any shortcut "the value did not really change" shows as a stale value */
+static const char *const VALUES_NEAR[] = {"{\"k\":1}", "{\"K\":1}", "[{\"K\":1}]", "[{\"k\":1}]", "{\"k\":[]}", "{\"k\":{}}"};
+static const char *const *VALUES = VALUES_FAR;
 static int stepno;
 static int reqid;
 static const char *last_action = "";
@@ -611,6 +615,9 @@ static void run(void)
 		return;
 	}
 	int depth = (int)xp_param("depth", 3);
+	if (xp_param("nearvals", 0)) {
+		VALUES = VALUES_NEAR;
+	}
 	int set = (int)xp_param("pathset", 0);
 	choose_paths(set);
 	colliding_universe = set == 2;
@@ -693,6 +700,6 @@ const struct driver drv_c04 = {
     .name = "c04",
     .property = "C04",
     .run = run,
-    .rule = "every sequence of actions up to the depth bound over 2 peers (raw, websocket) x 7 operations (add state / method / fetch-only state, remove, change, set, call) x 3 paths, plus 'the peer leaves and reconnects' (every path it owned is free again); optionally (stalled_sub) in the presence of a second fetch-all subscriber that has stopped reading and whose write buffer is full, for three path universes: {empty, 'a', 'A'}, {'ab', a 400-byte path, a 2-byte UTF-8 path}, {three paths with the same home bucket of the path index}; values rotate through 6 JSON values; accepted set/call are answered by the owner at once; oracle after every step: response verdict == reference map verdict, observer's fetch-all replica == map (existence, type, value), get == map; non-trivial = executions that ran to full depth | section 1 (crowded neighbourhood): 40 paths for one home bucket / for 33 consecutive home buckets (forwards and backwards) x {all by A, alternating, all by B} x {once, every second path removed and re-added by the other peer}: every acknowledged add is known to its owner, cannot be added again, is listed once by get and survives all later insertions; every refused one does not exist; removing everything leaves nothing",
+    .rule = "every sequence of actions up to the depth bound over 2 peers (raw, websocket) x 7 operations (add state / method / fetch-only state, remove, change, set, call) x 3 paths, plus 'the peer leaves and reconnects' (every path it owned is free again); optionally (stalled_sub) in the presence of a second fetch-all subscriber that has stopped reading and whose write buffer is full, for three path universes: {empty, 'a', 'A'}, {'ab', a 400-byte path, a 2-byte UTF-8 path}, {three paths with the same home bucket of the path index}; values rotate through 6 JSON values (nearvals: six values of which neighbours differ only in the letter case of a member name, in nesting or in the kind of an empty container); accepted set/call are answered by the owner at once; oracle after every step: response verdict == reference map verdict, observer's fetch-all replica == map (existence, type, value), get == map; non-trivial = executions that ran to full depth | section 1 (crowded neighbourhood): 40 paths for one home bucket / for 33 consecutive home buckets (forwards and backwards) x {all by A, alternating, all by B} x {once, every second path removed and re-added by the other peer}: every acknowledged add is known to its owner, cannot be added again, is listed once by get and survives all later insertions; every refused one does not exist; removing everything leaves nothing",
     .assumptions = "only success/error (and the internal-error code for refusals by a configured limit) are compared, never message texts|an accepted set/call is recognised by its delivery to the owner",
 };
